@@ -574,3 +574,14 @@ _run3 = run
 def run(rep, programs):  # noqa: F811
     _run3(rep, programs)
     r_toggle_dispatch(rep, programs["core"])
+
+
+_run4 = run
+
+
+def run(rep, programs):  # noqa: F811
+    _run4(rep, programs)
+    # alignment and range of targeted blocks (and of frees) are enforced by LLFree::check alone in release builds
+    from props import c08
+    c08.r_check_dom(rep, programs["core"])
+    c08.r_check_guards(rep, programs["core"])
